@@ -450,7 +450,7 @@ def _check_dispatch(fn: ast.FunctionDef) -> bool:
     import copy as _copy
     f = _copy.deepcopy(fn)
     f.body = [st for st in body_no_doc(f) if not norm.is_logging(st)] or [ast.Pass()]
-    f = norm.swap_negated_ifs(norm.lower_returns(f))
+    f = norm.swap_negated_ifs(norm.lower_returns(norm.match_to_if(f)))
     b = [st for st in f.body if not isinstance(st, ast.Pass)]
     present = ("target_fit_range", "target_fit_range is not None")
     if len(b) == 1 and isinstance(b[0], ast.If) and ast.unparse(b[0].test) in present \
@@ -675,6 +675,11 @@ def _call_sites(tree) -> tuple[str, str]:
         # names assigned in this branch (only statements before the call count) or before the branch
         idx = next(i for i, st in enumerate(stmts) if isinstance(st, ast.Expr) and st.value is call)
         env = _assignments(stmts[:idx])
+        # a name bound inside a compound statement of the branch (conditionally, in a loop ...) is not a definite value
+        for st in stmts[:idx]:
+            if not isinstance(st, (ast.Assign, ast.AnnAssign)):
+                for k, v in _assignments([st]).items():
+                    env[k] = env.get(k, []) + v
         outer = _assignments([st for st in ast.walk(fn) if isinstance(st, (ast.Assign, ast.AnnAssign))
                               and st.lineno < node_if.lineno])
         for k, v in outer.items():
@@ -1392,6 +1397,11 @@ def _norm_guard_fn(tree, fn, cls_name=None):
     return norm.renumber(norm.resolve_constants(fn, norm.module_constants(tree)))
 
 
+def _is_check_stmt(st) -> bool:
+    return isinstance(st, ast.Expr) and isinstance(st.value, ast.Call) \
+        and ast.unparse(st.value.func).split(".")[-1] == "check_fit_ranges"
+
+
 def _norm_fit_tree(tree):
     """a copy of fitting_datatree.py's module in which `__init__`, `fitness` and `_configure_weights` of the problem class
     are normalised (private helpers inlined, aliases substituted, negated tests swapped, module constants resolved)"""
@@ -1421,9 +1431,16 @@ def _norm_fit_tree(tree):
                 fn = norm.counter_to_enumerate(norm.ifexp_assign(fn))
             else:
                 fn = norm.lower_returns(fn)
+            if st.name == "__init__":
+                fn = norm.ifexp_assign(fn)
             fn = norm.swap_negated_ifs(fn)
             fn = norm.subst_aliases(fn, writes_of_callees(fn))
             fn = norm.resolve_constants(fn, consts)
+            if st.name == "__init__":
+                # `if c: A else: B` + `if c: C else: D` on the same unwritten attribute path == one if/else
+                fn = norm.merge_same_test_ifs(fn, writes_of_callees(fn))
+                # a call of check_fit_ranges hoisted behind an if/else reads like the call duplicated in its branches
+                fn = norm.sink_into_branches(fn, _is_check_stmt)
             cls.body[i] = fn
     return ast.parse(ast.unparse(ast.fix_missing_locations(tree)))
 
